@@ -153,48 +153,53 @@ Lemma compare_exact src dst load q sh cd c six' dix' :
 Proof.
   intros H Q. apply compare_combines in H as (dex & dmiss & sex & smiss & Hd & Hs & Hc).
   apply status_exact in Hd as (_ & Hde & Hdm). fold Q in Hde, Hdm.
+  assert (Hdec : ∀ o, o ∈ src ∨ o ∉ src) by (intros o; destruct (decide (o ∈ src)); auto).
+  assert (Hdec' : ∀ o, o ∈ dst ∨ o ∉ dst) by (intros o; destruct (decide (o ∈ dst)); auto).
   destruct (negb (bool_decide (dmiss = ∅)) || cd) eqn:Eb.
   - apply status_exact in Hs as (_ & Hse & Hsm). fold Q in Hse, Hsm.
-    assert (Hdec : ∀ o, o ∈ src ∨ o ∉ src) by (intros o; destruct (decide (o ∈ src)); auto).
-    assert (Hdec' : ∀ o, o ∈ dst ∨ o ∉ dst) by (intros o; destruct (decide (o ∈ dst)); auto).
+    (* everything is pointwise and propositional *)
+    assert (Hpt : ∀ o,
+      (o ∈ c_new c ↔ Q o ∧ o ∈ src ∧ o ∉ dst) ∧ (o ∈ c_missing c ↔ Q o ∧ o ∉ src ∧ o ∉ dst) ∧
+      (o ∈ c_ok c ↔ Q o ∧ o ∈ src ∧ o ∈ dst) ∧ (o ∈ c_deleted c ↔ Q o ∧ o ∉ src ∧ o ∈ dst)).
+    { intros o. specialize (Hc o). specialize (Hse o). specialize (Hsm o). specialize (Hde o).
+      specialize (Hdm o). destruct (Hdec o), (Hdec' o); tauto. }
+    clear Hc Hse Hsm Hde.
     split_and!.
-    + intros o. destruct (Hc o) as (_ & -> & _). rewrite Hse, Hde. naive_solver.
-    + intros o. destruct (Hc o) as (_ & _ & _ & ->). rewrite Hsm, Hdm. naive_solver.
-    + intros _. split; intros o.
-      * destruct (Hc o) as (-> & _). rewrite Hse, Hde. naive_solver.
-      * destruct (Hc o) as (_ & _ & -> & _). rewrite Hse, Hde. split; [|naive_solver].
-        intros [Hn [Hq Hi]]. split_and!; auto.
+    + intros o. apply Hpt.
+    + intros o. apply Hpt.
+    + intros _. split; intros o; apply Hpt.
     + intros [-> Hall]. rewrite orb_false_r in Eb. apply negb_true_iff in Eb.
       apply bool_decide_eq_false in Eb. exfalso. apply Eb. apply set_eq. intros o.
-      rewrite Hdm. set_solver.
-    + intros o. destruct (Hc o) as (-> & -> & -> & ->). rewrite !Hse, !Hde, !Hsm, !Hdm.
-      destruct (Hdec o), (Hdec' o); tauto.
-    + intros o. destruct (Hc o) as (-> & -> & _). naive_solver.
-    + intros o. destruct (Hc o) as (-> & _ & -> & _). naive_solver.
-    + intros o. destruct (Hc o) as (-> & _ & _ & ->). rewrite Hdm, Hde. naive_solver.
-    + intros o. destruct (Hc o) as (_ & -> & -> & _). naive_solver.
-    + intros o. destruct (Hc o) as (_ & -> & _ & ->). rewrite Hse, Hsm. naive_solver.
-    + intros o. destruct (Hc o) as (_ & _ & -> & ->). rewrite Hdm, Hde. naive_solver.
+      rewrite Hdm. split; [|set_solver]. intros (Hq & Hn). exfalso. auto.
+    + intros o. specialize (Hpt o). destruct (Hdec o), (Hdec' o); tauto.
+    + intros o. specialize (Hpt o). tauto.
+    + intros o. specialize (Hpt o). tauto.
+    + intros o. specialize (Hpt o). tauto.
+    + intros o. specialize (Hpt o). tauto.
+    + intros o. specialize (Hpt o). tauto.
+    + intros o. specialize (Hpt o). tauto.
   - destruct Hs as (-> & -> & _). apply orb_false_iff in Eb as [Eb ->].
     apply negb_false_iff, bool_decide_eq_true in Eb. subst dmiss.
     assert (Hall : ∀ x, Q x → x ∈ dst).
     { intros x Hx. destruct (decide (x ∈ dst)); [done|]. exfalso.
       assert (x ∈ (∅ : gset oid)) by (apply Hdm; auto). set_solver. }
+    assert (Hpt : ∀ o,
+      (o ∈ c_new c ↔ False) ∧ (o ∈ c_missing c ↔ False) ∧ (o ∈ c_ok c ↔ Q o) ∧ (o ∈ c_deleted c ↔ False)).
+    { intros o. specialize (Hc o). specialize (Hde o). specialize (Hall o).
+      assert (o ∉ (∅ : gset oid)) by set_solver. tauto. }
+    clear Hc Hde Hdm.
     split_and!.
-    + intros o. destruct (Hc o) as (_ & -> & _). naive_solver.
-    + intros o. destruct (Hc o) as (_ & _ & _ & ->). split; [set_solver|]. naive_solver.
+    + intros o. specialize (Hpt o). specialize (Hall o). tauto.
+    + intros o. specialize (Hpt o). specialize (Hall o). tauto.
     + intros [?|(x & Hx & Hn)]; [done|]. exfalso. auto.
-    + intros _. split; intros o.
-      * destruct (Hc o) as (-> & _). rewrite Hde. naive_solver.
-      * destruct (Hc o) as (_ & _ & -> & _). naive_solver.
-    + intros o. destruct (Hc o) as (-> & -> & -> & ->). rewrite Hde. split; [|set_solver].
-      intros Hq. left. auto.
-    + intros o. destruct (Hc o) as (-> & -> & _). naive_solver.
-    + intros o. destruct (Hc o) as (-> & _ & -> & _). naive_solver.
-    + intros o. destruct (Hc o) as (-> & _ & _ & ->). set_solver.
-    + intros o. destruct (Hc o) as (_ & -> & -> & _). naive_solver.
-    + intros o. destruct (Hc o) as (_ & -> & _ & ->). set_solver.
-    + intros o. destruct (Hc o) as (_ & _ & -> & ->). set_solver.
+    + intros _. split; intros o; specialize (Hpt o); tauto.
+    + intros o. specialize (Hpt o). tauto.
+    + intros o. specialize (Hpt o). tauto.
+    + intros o. specialize (Hpt o). tauto.
+    + intros o. specialize (Hpt o). tauto.
+    + intros o. specialize (Hpt o). tauto.
+    + intros o. specialize (Hpt o). tauto.
+    + intros o. specialize (Hpt o). tauto.
 Qed.
 
 Example compare_exact_ex :
@@ -422,16 +427,16 @@ Proof.
   - intros H; inversion H; subst; clear H. exists ∅. split_and!; [done|set_solver|set_solver|]. by left.
   - destruct (req_dirs q) as [|d0 dr] eqn:Er.
     + intros H; inversion H; subst; clear H. exists ids. split_and!; [done|set_solver| |].
-      * apply set_eq. intros o. destruct (decide (o ∈ dom ix')), (decide (o ∈ st)); set_solver.
-      * right. left. split_and!; [done..|]. intros o.
-        destruct (decide (o ∈ dom ix')), (decide (o ∈ st)); set_solver.
+      * apply set_eq. intros o. set_unfold. destruct (decide (o ∈ dom ix')), (decide (o ∈ st)); tauto.
+      * right. left. split_and!; [done..|]. intros o. set_unfold.
+        destruct (decide (o ∈ dom ix')), (decide (o ∈ st)); tauto.
     + destruct (indexed_dir_hashes st load ix (d0 :: dr)) as [ix1 y] eqn:Ei.
       intros H; inversion H; subst; clear H. exists ids. cbn [fst snd].
       split_and!; [done|set_solver| |].
-      * apply set_eq. intros o.
-        destruct (decide (o ∈ y)), (decide (o ∈ dom ix')), (decide (o ∈ st)); set_solver.
-      * right. right. split_and!; [done..|]. intros o.
-        destruct (decide (o ∈ y)), (decide (o ∈ dom ix')), (decide (o ∈ st)); set_solver.
+      * apply set_eq. intros o. set_unfold.
+        destruct (decide (o ∈ y)), (decide (o ∈ dom ix')), (decide (o ∈ st)); tauto.
+      * right. right. split_and!; [done..|]. intros o. set_unfold.
+        destruct (decide (o ∈ y)), (decide (o ∈ dom ix')), (decide (o ∈ st)); tauto.
 Qed.
 
 (* under flat listings a queried directory id was requested *)
